@@ -113,6 +113,20 @@ def Ctx.opPubC (c : Ctx) (a : Actor) (tn : TName) (content : String) (head : Lis
     | none => c.emit a.sid (ctrl 500 tn)
     | some marked => c.deliverPubC t a m marked noEcho
 
+/-- evictUser on a channel-enabled topic: a reader's record is dropped in either case -/
+def Ctx.evictUserC (c : Ctx) (t : Topic) (u : Uid) (unsub : Bool) (skip : Sid) : Ctx × Topic :=
+  let isRd := match t.pud? u with | some p => p.isChan | none => false
+  let t := if unsub || isRd then t.delPud u
+           else match t.pud? u with
+             | some p => t.setPud u { p with online := 0 }
+             | none => t
+  let gone := t.sessions.filter (·.2 = u)
+  let t := { t with sessions := t.sessions.filter (·.2 ≠ u), chanSess := t.chanSess.filter (fun s => !(gone.any (·.1 = s))) }
+  let c := gone.foldl (fun c (sid, _) =>
+    let c := { c with w := c.w.detach sid t.name }
+    if sid ≠ skip then c.emit sid (ctrl 205 t.name s!" unsub={unsub}") else c) c
+  (c, t)
+
 /-! ### {sub} -/
 
 /-- thisUserSub for a request under the `chn` spelling by a user who is not cached (topic.go:1527-1560, 1594-1650): the reader's
@@ -133,14 +147,64 @@ def Ctx.readerSub (c : Ctx) (t : Topic) (a : Actor) (want : String) (priv : Priv
   let oldWant : Mode := match sub with | some s => s.want | none => modeCChnReader
   let wantM := chanWant modeWant0 oldWant
   let privTok : Tok := match priv with | .val s => some s | _ => none
-  let ud : PUD := { want := wantM, given := modeCChnReader, priv := privTok, isChan := true }
+  -- an existing subscription keeps its private data unless the request gives (or clears) it
+  let privCached : Tok := match sub, priv with
+    | some s, .absent => s.priv
+    | _, _ => privTok
+  let ud : PUD := { want := wantM, given := modeCChnReader, priv := privCached, isChan := true }
   let (c, ok) := match sub with
     | none => c.csubsCreate tn (newSubRow a.uid wantM modeCChnReader privTok)
-    | some _ => if wantM ≠ oldWant then c.csubsUpdate tn a.uid (fun s => { s with want := wantM }) else (c, true)
+    | some _ =>
+      if wantM ≠ oldWant ∨ priv ≠ PrivArg.absent then
+        c.csubsUpdate tn a.uid (fun s =>
+          let s := if wantM ≠ oldWant then { s with want := wantM } else s
+          if priv ≠ PrivArg.absent then { s with priv := privTok } else s)
+      else (c, true)
   if !ok then (c.emit a.sid (ctrl 500 tn), t, none) else
   let t := t.setPud a.uid ud
   let changed := oldWant ≠ ud.want ∨ oldGiven ≠ ud.given
   -- notifySubChange(isChan): the sharers attached to the topic are told; nothing else
+  let c := if changed then
+      let dWant := String.ofList (notifyStr oldWant ud.want)
+      let dGiven := String.ofList (notifyStr oldGiven ud.given)
+      let acs := if dWant ≠ "" ∨ dGiven ≠ "" then s!" dacs={if dWant.isEmpty then "_" else dWant}/{if dGiven.isEmpty then "_" else dGiven}" else ""
+      let c := c.presOnline t { what := "acs", src := a.uid, extra := acs, filterIn := modeCSharer, excludeUser := a.uid, skipSid := a.sid }
+      c.presDirect t { what := "acs", src := "", extra := acs, singleUser := a.uid, skipSid := a.sid }
+    else c
+  let mc := if newsubFlag ∨ changed then some (ud.want, ud.given) else none
+  -- a stored request without J (written by a {set} while not attached) is a self-ban: the reader is not attached
+  if !isJoiner ud.want then
+    let (c, t) := c.evictUserC t a.uid false ""
+    (c, t, some { modeChanged := mc })
+  else (c, t, some { modeChanged := mc })
+
+/-- thisUserSub for a reader who is cached already (another session of the reader is attached, or the reader changes the own mode):
+the same limits as at the first subscription; what changes is written to the reader's row -/
+def Ctx.readerResub (c : Ctx) (t : Topic) (a : Actor) (ud0 : PUD) (want : String) (priv : PrivArg) (newsubFlag : Bool) :
+    Ctx × Topic × Option SubResult :=
+  let tn := t.name
+  match (if want = "" then Except.ok modeUnset else (unmarshal modeUnset want.toList)) with
+  | .error _ => (c.emit a.sid (ctrl 400 tn), t, none)
+  | .ok modeWant0 =>
+  if modeWant0 ≠ modeUnset ∧ isOwner modeWant0 then (c.emit a.sid (ctrl 403 tn), t, none) else
+  let oldWant := ud0.want
+  let oldGiven := ud0.given
+  let wantM := if modeWant0 = modeUnset then
+      (if !isJoiner oldWant then (ud0.given ||| t.accessFor a.lvl) &&& ~~~modeOwner else oldWant)
+    else chanWant modeWant0 oldWant
+  let ud := { ud0 with want := wantM }
+  let (ud, privUpd) : PUD × Bool := match priv with
+    | .null => ({ ud with priv := none }, true)
+    | .val s => ({ ud with priv := some s }, true)
+    | .absent => (ud, false)
+  let (c, ok) := if privUpd ∨ ud.want ≠ oldWant then
+      c.csubsUpdate tn a.uid (fun s =>
+        let s := if privUpd then { s with priv := ud.priv } else s
+        if ud.want ≠ oldWant then { s with want := ud.want } else s)
+    else (c, true)
+  if !ok then (c.emit a.sid (ctrl 500 tn), t, none) else
+  let t := t.setPud a.uid ud
+  let changed := oldWant ≠ ud.want ∨ oldGiven ≠ ud.given
   let c := if changed then
       let dWant := String.ofList (notifyStr oldWant ud.want)
       let dGiven := String.ofList (notifyStr oldGiven ud.given)
@@ -158,11 +222,13 @@ def Ctx.subscriptionReplyReader (c : Ctx) (t : Topic) (a : Actor) (mode : String
   match t.pud? a.uid with
   | some p =>
     if !p.isChan then
-      -- an ordinary subscriber must use the group name: 303
-      (c.emit a.sid (ctrl 303 tn s!" topic={tn}"), t)
+      -- an ordinary subscriber must use the group name: 303 (after the mode has been parsed)
+      (match (if mode = "" then Except.ok modeUnset else (unmarshal modeUnset mode.toList)) with
+        | .error _ => (c.emit a.sid (ctrl 400 tn), t)
+        | .ok _ => (c.emit a.sid (ctrl 303 tn s!" topic={tn}"), t))
     else
       -- another session of a reader who is attached already: the generic path of thisUserSub on the cached record
-      let (c, t, r) := c.thisUserSub t a mode priv false
+      let (c, t, r) := c.readerResub t a p mode priv false
       match r with
       | none => (c, t)
       | some res =>
@@ -182,15 +248,26 @@ def Ctx.subscriptionReplyReader (c : Ctx) (t : Topic) (a : Actor) (mode : String
     match r with
     | none => (c, t)
     | some res =>
-      let c := { c with w := c.w.attach a.sid tn }
-      let t := if t.sessions.any (·.1 = a.sid) then t else { t with sessions := t.sessions ++ [(a.sid, a.uid)], chanSess := t.chanSess ++ [a.sid] }
-      let t := if !a.bg then (let p := t.pud a.uid; t.setPud a.uid { p with online := p.online + 1 }) else t
+      let hasJoined := match res.modeChanged with
+        | some (w, g) => isJoiner (w &&& g)
+        | none => true
+      let (c, t) := if hasJoined then
+          let c := { c with w := c.w.attach a.sid tn }
+          let t := if t.sessions.any (·.1 = a.sid) then t else { t with sessions := t.sessions ++ [(a.sid, a.uid)], chanSess := t.chanSess ++ [a.sid] }
+          let t := if !a.bg then (let p := t.pud a.uid; t.setPud a.uid { p with online := p.online + 1 }) else t
+          (c, t)
+        else (c, t)
       let params := match res.modeChanged with | some (w, g) => s!" acs={acsStr w g}" | none => ""
       (c.emit a.sid (ctrl 200 tn params), t)
 
 /-- {sub} to a channel-enabled topic or under the `chn` spelling -/
 def Ctx.opSubC (c : Ctx) (a : Actor) (tn : TName) (viaChn : Bool) (mode : String) (priv : PrivArg) (userGiven : Bool) : Ctx :=
   if c.w.attached a.sid tn then c.emit a.sid (ctrl 304 tn) else
+  -- a `chn` name which was never issued is looked up in the store like any other (it is well-formed for topicInit)
+  if viaChn ∧ (c.w.live? tn).isNone ∧ ((tn.drop 1).toNat?.getD 0) ≥ c.w.nextT then
+    let (c, ok) := c.call "TopicGet"
+    if !ok then c.emit a.sid (ctrl 500 tn) else c.emit a.sid (ctrl 404 tn)
+  else
   let (c, ot) := c.joinTopic a tn
   match ot with
   | none => c
@@ -200,24 +277,29 @@ def Ctx.opSubC (c : Ctx) (a : Actor) (tn : TName) (viaChn : Bool) (mode : String
       let (c, t) := c.subscriptionReplyReader t a mode priv userGiven
       c.putLive t
     else
-      let (c, t, _) := c.subscriptionReply t a mode priv false false userGiven
-      c.putLive t
+      match t.pud? a.uid with
+      | some p =>
+        if p.isChan then
+          -- a user who is attached as a channel reader subscribes under the group name as well: the request is served on the
+          -- reader's record, the session is attached as an ordinary one
+          if userGiven then c.emit a.sid (ctrl 400 tn) else
+          let (c, t, r) := c.readerResub t a p mode priv false
+          match r with
+          | none => c.putLive t
+          | some res =>
+            let c := { c with w := c.w.attach a.sid tn }
+            let t := if t.sessions.any (·.1 = a.sid) then t else { t with sessions := t.sessions ++ [(a.sid, a.uid)] }
+            let t := if !a.bg then (let q := t.pud a.uid; t.setPud a.uid { q with online := q.online + 1 }) else t
+            let params := match res.modeChanged with | some (w, g) => s!" acs={acsStr w g}" | none => ""
+            (c.emit a.sid (ctrl 200 tn params)).putLive t
+        else
+          let (c, t, _) := c.subscriptionReply t a mode priv false false userGiven
+          c.putLive t
+      | none =>
+        let (c, t, _) := c.subscriptionReply t a mode priv false false userGiven
+        c.putLive t
 
 /-! ### {leave} -/
-
-/-- evictUser on a channel-enabled topic: a reader's record is dropped in either case -/
-def Ctx.evictUserC (c : Ctx) (t : Topic) (u : Uid) (unsub : Bool) (skip : Sid) : Ctx × Topic :=
-  let isRd := match t.pud? u with | some p => p.isChan | none => false
-  let t := if unsub ∨ isRd then t.delPud u
-           else match t.pud? u with
-             | some p => t.setPud u { p with online := 0 }
-             | none => t
-  let gone := t.sessions.filter (·.2 = u)
-  let t := { t with sessions := t.sessions.filter (·.2 ≠ u), chanSess := t.chanSess.filter (fun s => !(gone.any (·.1 = s))) }
-  let c := gone.foldl (fun c (sid, _) =>
-    let c := { c with w := c.w.detach sid t.name }
-    if sid ≠ skip then c.emit sid (ctrl 205 t.name s!" unsub={unsub}") else c) c
-  (c, t)
 
 def Ctx.replyLeaveUnsubC (c : Ctx) (t : Topic) (a : Actor) (viaChn : Bool) : Ctx × Topic :=
   let tn := t.name
@@ -258,12 +340,11 @@ def Ctx.opLeaveC (c : Ctx) (a : Actor) (tn : TName) (viaChn : Bool) (unsub : Boo
       match t.sessions.find? (·.1 = a.sid) with
       | none => c
       | some (_, suid) =>
+        -- the spelling must match the way the session is attached: otherwise 404 and nothing changes
+        if t.isChanSess a.sid ≠ asChan then c.emit a.sid (ctrl 404 tn) else
         if suid ≠ a.uid then c else
-        let wasChan := t.isChanSess a.sid
         let t := { t with sessions := t.sessions.filter (·.1 ≠ a.sid), chanSess := t.chanSess.filter (· ≠ a.sid) }
         let c := { c with w := c.w.detach a.sid tn }
-        -- the spelling must match the way the session is attached: otherwise 404, with the session gone already
-        if wasChan ≠ asChan then (c.emit a.sid (ctrl 404 tn)).putLive t else
         let pud := t.pud suid
         let pud := if !a.bg then { pud with online := pud.online - 1 } else pud
         let t := if !a.bg then t.setPud suid pud else t
@@ -398,6 +479,67 @@ def Ctx.opGetC (c : Ctx) (a : Actor) (tn : TName) (viaChn : Bool) (what : String
     | "del" => c.getDel t a since before limit
     | _ => c.emit a.sid (ctrl 400 tn)
 
+/-! ### {set} -/
+
+/-- replyOfflineTopicSetSub under the `chn` spelling: the reader's own row -/
+def Ctx.setSubOfflineReader (c : Ctx) (a : Actor) (tn : TName) (target : Uid) (mode : String) (priv : PrivArg) : Ctx :=
+  if priv = .absent ∧ mode = "" then c.emit a.sid (ctrl 304 tn) else
+  if target ≠ "" ∧ target ≠ a.uid then c.emit a.sid (ctrl 403 tn) else
+  let (c, got) := c.csubsGet tn a.uid false
+  match got with
+  | none => c.emit a.sid (ctrl 500 tn)
+  | some none => c.emit a.sid (ctrl 404 tn)
+  | some (some s) =>
+    let privUpd : Option Tok := match priv with | .absent => none | .null => some (some "␡") | .val p => some (some p)
+    let r : Except Nat (Option Mode) :=
+      if mode = "" then .ok none else
+      match unmarshal 0 mode.toList with
+      | .error _ => .error 500
+      | .ok mw =>
+        if isOwner mw ≠ isOwner s.want then .error 403
+        else if mw ≠ s.want then .ok (some mw) else .ok none
+    match r with
+    | .error code => c.emit a.sid (ctrl code tn)
+    | .ok wantUpd =>
+      if privUpd.isNone ∧ wantUpd.isNone then c.emit a.sid (ctrl 304 tn) else
+      let (c, ok) := c.csubsUpdate tn a.uid (fun row =>
+        let row := match privUpd with | some p => { row with priv := p } | none => row
+        match wantUpd with | some m => { row with want := m } | none => row)
+      if !ok then c.emit a.sid (ctrl 500 tn) else
+      match wantUpd with
+      | some m => c.emit a.sid (ctrl 200 tn s!" acs={acsStr m s.given}")
+      | none => c.emit a.sid (ctrl 200 tn)
+
+def Ctx.opSetSubC (c : Ctx) (a : Actor) (tn : TName) (viaChn : Bool) (target : Uid) (mode : String) : Ctx :=
+  if !c.w.attached a.sid tn then
+    (if viaChn then c.setSubOfflineReader a tn target mode .absent else c.setSubOffline a tn target mode .absent)
+  else
+  match c.w.live? tn with
+  | none => c
+  | some t =>
+    if viaChn ∧ !t.isChan then c.emit a.sid (ctrl 404 tn) else
+    let tg := if target = "" then a.uid else target
+    match t.pud? a.uid with
+    | some p =>
+      if p.isChan ∧ tg = a.uid then
+        -- a reader changes the own mode
+        let (c, t, r) := c.readerResub t a p mode .absent false
+        let c := match r with
+          | none => c
+          | some res =>
+            match res.modeChanged with
+            | some (w, g) => c.emit a.sid (ctrl 200 tn s!" acs={acsStr w g}")
+            | none => c.emit a.sid (ctrl 304 tn)
+        c.putLive t
+      else if viaChn ∧ tg ≠ a.uid then c.emit a.sid (ctrl 403 tn)      -- anotherUserSub(asChan): readers invite nobody
+      else if viaChn ∧ !p.isChan then
+        -- an ordinary subscriber must use the group name (after the mode has been parsed)
+        (match (if mode = "" then Except.ok modeUnset else (unmarshal modeUnset mode.toList)) with
+          | .error _ => c.emit a.sid (ctrl 400 tn)
+          | .ok _ => c.emit a.sid (ctrl 303 tn s!" topic={tn}"))
+      else c.opSetSub a tn target mode
+    | none => c.opSetSub a tn target mode
+
 /-! ### {del what=topic}, dropped connections -/
 
 def Ctx.terminateTopicC (c : Ctx) (t : Topic) : Ctx := c.terminateTopic t
@@ -440,7 +582,7 @@ def Ctx.opDelTopicC (c : Ctx) (a : Actor) (tn : TName) (viaChn : Bool) (hard : B
       let (c, t) := c.replyLeaveUnsubC t a (viaChn && t.isChan)
       c.putLive t
 
-/-- the connection of a session attached to a channel-enabled topic is gone: a leave which is NOT made under the `chn` spelling -/
+/-- the connection of a session attached to a channel-enabled topic is gone: the session leaves the way it was attached -/
 def Ctx.dropTopicC (c : Ctx) (s : Sess) (tn : TName) : Ctx :=
   match c.w.live? tn with
   | none => c
@@ -452,20 +594,27 @@ def Ctx.dropTopicC (c : Ctx) (s : Sess) (tn : TName) : Ctx :=
       let wasChan := t.isChanSess s.sid
       let t := { t with sessions := t.sessions.filter (·.1 ≠ s.sid), chanSess := t.chanSess.filter (· ≠ s.sid) }
       let c := { c with w := c.w.detach s.sid tn }
-      -- the session of a channel reader is dropped from the topic and nothing else happens: neither the online count nor the
-      -- reader's cached record is touched (topic.go:725-732 with asChan = false)
-      if wasChan then c.putLive t else
       let pud := t.pud suid
       let pud := if !s.bg then { pud with online := pud.online - 1 } else pud
       let t := if !s.bg then t.setPud suid pud else t
-      let c := if pud.online = (0 : Int) then c.presOnline t { what := "off", src := suid, filterIn := modeRead } else c
-      c.putLive t
+      if pud.online = (0 : Int) then
+        -- the last session of a reader: the record is dropped; of a subscriber: the others are told
+        if wasChan then c.putLive (t.delPud suid)
+        else (c.presOnline t { what := "off", src := suid, filterIn := modeRead }).putLive t
+      else c.putLive t
 
-/-- background session goes foreground: the session of a channel reader is not counted (topic.go:837) -/
+/-- background session goes foreground: the session of a channel reader is counted, nothing is announced for it -/
 def Ctx.fgTopicC (c : Ctx) (sid : Sid) (tn : TName) : Ctx :=
   match c.w.live? tn with
   | none => c
-  | some t => if t.isChanSess sid then c else c.fgTopic sid tn
+  | some t =>
+    if !t.isChanSess sid then c.fgTopic sid tn else
+    if !t.hasSupd then c else
+    match t.sessions.find? (·.1 = sid) with
+    | none => c
+    | some (_, uid) =>
+      let p := t.pud uid
+      c.putLive (t.setPud uid { p with online := p.online + 1 })
 
 def World.isChanTopic (w : World) (tn : TName) : Bool :=
   match w.live? tn with
